@@ -42,7 +42,7 @@ theorem pkg_resolved_inside (cfg : PkgConfig) (fs : FS) (name : List Ch) (p : PP
     ∃ base ∈ cfg.paths, ∃ rel, rel ≠ [] ∧ Clean rel ∧ p = ⟨base.root, base.parts ++ rel⟩ ∧
       rel.dropLast = (parse name).parts.dropLast := by
   obtain ⟨tp', hroot, _, hne, hclean, hdl, hsearch⟩ := pkgResolve_ok h
-  obtain ⟨base, hb, hp, _⟩ := pkgSearch_ok hsearch
+  obtain ⟨base, hb, hp, _⟩ := pkgSearch_ok (wf_of_clean hroot hclean) hsearch
   exact ⟨base, hb, tp'.parts, hne, hclean, by rw [hp, join_rel hroot], hdl⟩
 
 /-- An absolute name (one, two or more leading slashes) never resolves — `base.joinpath(absolute)` would
@@ -142,7 +142,7 @@ theorem pkg_contents_inside_linkfree (cfg : PkgConfig) (fs : FS) (name : List Ch
     · rename_i c' hread
       cases h
       obtain ⟨tp', hroot, _, hne, hclean, _, hsearch⟩ := pkgResolve_ok hres
-      obtain ⟨base, hb, hp, _⟩ := pkgSearch_ok hsearch
+      obtain ⟨base, hb, hp, _⟩ := pkgSearch_ok (wf_of_clean hroot hclean) hsearch
       have hk := pyRead_ok hread
       rw [hp, join_rel hroot] at hk ⊢
       obtain ⟨f1, m, f, q, hw1, hw2, hnode, _, _, _, _⟩ := read_factors hne hk
@@ -223,8 +223,8 @@ theorem pkg_only_not_found (cfg : PkgConfig) (fs : FS) (name : List Ch) (e : Exc
           · cases ht
         · exact pkgSearch_error hres
   · rename_i p hres
-    obtain ⟨tp', _, _, _, _, _, hsearch⟩ := pkgResolve_ok hres
-    obtain ⟨_, _, _, hfile⟩ := pkgSearch_ok hsearch
+    obtain ⟨tp', hroot, _, _, hclean, _, hsearch⟩ := pkgResolve_ok hres
+    obtain ⟨_, _, _, hfile⟩ := pkgSearch_ok (wf_of_clean hroot hclean) hsearch
     obtain ⟨c, hc⟩ := pyIsFile_true hfile
     rw [pyRead_of_file hc] at h
     cases h
@@ -239,6 +239,177 @@ theorem reject_check_compares_real_paths (fs : FS) (base : PPath) (rel : Comps) 
   obtain ⟨c, hc⟩ := fslProbe_true h
   obtain ⟨f1, m, f, q, hw1, _, _, _, hw, hr, hb⟩ := read_factors hne hc
   exact ⟨q, m, hr, by simp [canon, hw], hb, by simp [canon, hw1]⟩
+
+/-! ## Deepening round: the name is used verbatim, ordinary names do load, strings end to end -/
+
+/-- **`FileSystemLoader` never transforms the name other than by `pathlib` parsing**: the path it returns is a
+search directory followed by exactly the components `Path(name)` has — no case folding, no unicode
+normalisation, no decoding — except that `ext` is appended to the last component when that has no suffix. -/
+theorem name_used_verbatim (cfg : FSLConfig) (fs : FS) (name : List Ch) (p : PPath)
+    (h : fslResolve cfg fs name = .ok p) :
+    ∃ base ∈ cfg.search,
+      p = ⟨base.root, base.parts ++ (parse name).parts⟩ ∨
+      ∃ e, cfg.ext = some e ∧ e ≠ [] ∧ suffixOf (parse name).name = [] ∧
+        p = ⟨base.root, base.parts ++ ((parse name).parts.dropLast ++ [(parse name).name ++ e])⟩ := by
+  obtain ⟨tp', ht, hroot, hsearch⟩ := fslResolve_target h
+  obtain ⟨base, hb, hp, _, _⟩ := fslSearch_ok hsearch
+  refine ⟨base, hb, ?_⟩
+  rw [hp, join_rel hroot]
+  rcases fslTarget_parts ht with rfl | ⟨e, he, hen, hs, _, hparts⟩
+  · exact Or.inl rfl
+  · exact Or.inr ⟨e, he, hen, hs, by rw [hparts]⟩
+
+/-- **`PackageLoader` uses the name verbatim too** (the trip through `str(template_path)` changes nothing:
+`parse_strOf`). This is the statement the seeded change C22-2 (NFKC normalisation after the `..` test) breaks. -/
+theorem pkg_name_used_verbatim (cfg : PkgConfig) (fs : FS) (name : List Ch) (p : PPath)
+    (h : pkgResolve cfg fs name = .ok p) :
+    ∃ base ∈ cfg.paths,
+      p = ⟨base.root, base.parts ++ (parse name).parts⟩ ∨
+      (suffixOf (parse name).name = [] ∧
+        p = ⟨base.root, base.parts ++ ((parse name).parts.dropLast ++ [(parse name).name ++ cfg.ext])⟩) := by
+  obtain ⟨tp', ht, hroot, hclean, hsearch⟩ := pkgResolve_target h
+  obtain ⟨base, hb, hp, _⟩ := pkgSearch_ok (wf_of_clean hroot hclean) hsearch
+  refine ⟨base, hb, ?_⟩
+  rw [hp, join_rel hroot]
+  rcases pkgTarget_parts ht with rfl | ⟨hs, _, hparts⟩
+  · exact Or.inl rfl
+  · exact Or.inr ⟨hs, by rw [hparts]⟩
+
+/-- **Strings end to end**: `Path(str(p)) == p` for every path `Path(...)` can produce, so the string a loader
+hands back (`TemplateSource.name`, `template.path`) denotes exactly the `search_dir/rel` of
+`fsl_resolved_inside`, and PackageLoader's `joinpath(str(template_path))` joins what was validated. -/
+theorem str_round_trip (s : List Ch) : parse (strOf (parse s)) = parse s := parse_strOf _ (parse_wf s)
+
+theorem returned_name_parses_inside (cfg : FSLConfig) (fs : FS) (name : List Ch) (p : PPath)
+    (hsearch : ∀ b ∈ cfg.search, WF b) (h : fslResolve cfg fs name = .ok p) :
+    ∃ base ∈ cfg.search, ∃ rel, rel ≠ [] ∧ Clean rel ∧ parse (strOf p) = ⟨base.root, base.parts ++ rel⟩ := by
+  obtain ⟨base, hb, rel, hne, hclean, hp, _⟩ := fsl_resolved_inside cfg fs name p h
+  refine ⟨base, hb, rel, hne, hclean, ?_⟩
+  rw [hp]
+  apply parse_strOf
+  refine ⟨(hsearch base hb).1, ?_⟩
+  intro c hc
+  simp only [List.mem_append] at hc
+  rcases hc with hc | hc
+  · exact (hsearch base hb).2 c hc
+  · exact ⟨(hclean c hc).1, (hclean c hc).2.1, (hclean c hc).2.2.2⟩
+
+/-- **Completeness — an ordinary name does load.** A relative name without `..` whose target (`Path(name)`,
+plus `ext` when it has no suffix) is a regular file reached by plain descent from the directory a search path
+canonically denotes, with encodable components of at most 255 bytes and a path shorter than PATH_MAX, is
+returned with exactly that file's contents, from the first search directory that has it — with or without
+`reject_symlinks`. (So the containment theorems are not satisfied by a loader that finds nothing.) -/
+theorem ordinary_names_load (cfg : FSLConfig) (fs : FS) (name : List Ch) (tp' : PPath)
+    (pre post : List PPath) (base : PPath) (cb : Comps) (c : Nat)
+    (hroot : (parse name).root = 0) (hdd : dotdot ∉ (parse name).parts) (hne : (parse name).parts ≠ [])
+    (ht : fslTarget cfg.ext (parse name) = .ok tp')
+    (hsearch : cfg.search = pre ++ base :: post)
+    (hpre : ∀ b ∈ pre, ∀ c', kstat fs (join b tp') ≠ .ok (.file c'))
+    (hcb : canon fs base = some cb)
+    (hfile : nodeAt fs.root (cb ++ tp'.parts) = some (.file c))
+    (hbytes : ∀ x ∈ tp'.parts, nameBytes x ≤ NAME_MAX)
+    (hbad : hasBadChar ⟨base.root, base.parts ++ tp'.parts⟩ = false)
+    (hlen : strBytes ⟨base.root, base.parts ++ tp'.parts⟩ < PATH_MAX) :
+    fslGetSource cfg fs name = .ok (⟨base.root, base.parts ++ tp'.parts⟩, c) := by
+  have hn := parse_name_ne_nil hne
+  obtain ⟨hr, hne', _, hpl⟩ := fslTarget_ok ht hn (parse_parts_plain name)
+  have hroot' : tp'.root = 0 := hr.trans hroot
+  have hdd' : dotdot ∉ tp'.parts := by
+    have ht2 := ht
+    unfold fslTarget at ht2
+    split at ht2
+    · split at ht2
+      · rename_i hs; exact no_dotdot_after_suffix hs ht2 (parse_parts_plain name) hdd
+      · cases ht2; exact hdd
+    · cases ht2; exact hdd
+  have hclean := clean_of_plain hpl hdd'
+  obtain ⟨f1, hw⟩ := canon_walk hcb
+  have hk := stat_of_descend hw hclean hbytes hfile hbad hlen
+  have hres : fslResolve cfg fs name = .ok ⟨base.root, base.parts ++ tp'.parts⟩ := by
+    unfold fslResolve
+    simp only [hn, if_false, ht, PPath.isAbsolute, hdd', hroot', Nat.lt_irrefl, decide_false, or_self,
+      Bool.false_eq_true, hsearch]
+    exact fslSearch_hit hroot' hpre hw hclean hne' hbytes hfile hbad hlen
+  simp [fslGetSource, hres, pyRead_of_file hk]
+
+/-- the same for `PackageLoader` -/
+theorem pkg_ordinary_names_load (cfg : PkgConfig) (fs : FS) (name : List Ch) (tp' : PPath)
+    (pre post : List PPath) (base : PPath) (cb : Comps) (c : Nat)
+    (hroot : (parse name).root = 0) (hdd : dotdot ∉ (parse name).parts) (hne : (parse name).parts ≠ [])
+    (ht : pkgTarget cfg.ext (parse name) = .ok tp')
+    (hsearch : cfg.paths = pre ++ base :: post)
+    (hpre : ∀ b ∈ pre, ∀ c', kstat fs (join b tp') ≠ .ok (.file c'))
+    (hcb : canon fs base = some cb)
+    (hfile : nodeAt fs.root (cb ++ tp'.parts) = some (.file c))
+    (hbytes : ∀ x ∈ tp'.parts, nameBytes x ≤ NAME_MAX)
+    (hbad : hasBadChar ⟨base.root, base.parts ++ tp'.parts⟩ = false)
+    (hlen : strBytes ⟨base.root, base.parts ++ tp'.parts⟩ < PATH_MAX) :
+    pkgGetSource cfg fs name = .ok (⟨base.root, base.parts ++ tp'.parts⟩, c) := by
+  have hn := parse_name_ne_nil hne
+  have hroot' : tp'.root = 0 := by
+    rcases pkgTarget_parts ht with rfl | ⟨_, hr, _⟩
+    · exact hroot
+    · exact hr.trans hroot
+  have hclean : Clean tp'.parts := by
+    have ht2 := ht
+    unfold pkgTarget at ht2
+    split at ht2
+    · rename_i hs
+      obtain ⟨_, _, _, hpl⟩ := withSuffix_parts_plain hs ht2 (Or.inr trivial) (parse_parts_plain name)
+      exact clean_of_plain hpl (no_dotdot_after_suffix hs ht2 (parse_parts_plain name) hdd)
+    · cases ht2; exact clean_of_plain (parse_parts_plain name) hdd
+  obtain ⟨f1, hw⟩ := canon_walk hcb
+  have hk := stat_of_descend hw hclean hbytes hfile hbad hlen
+  have hres : pkgResolve cfg fs name = .ok ⟨base.root, base.parts ++ tp'.parts⟩ := by
+    unfold pkgResolve
+    unfold pkgTarget at ht
+    simp only [hn, if_false, PPath.isAbsolute, hdd, hroot, Nat.lt_irrefl, decide_false, or_self,
+      Bool.false_eq_true, ht, hsearch]
+    exact pkgSearch_hit hroot' hpre hw hclean hbytes hfile hbad hlen
+  simp [pkgGetSource, hres, pyRead_of_file hk]
+
+/-! ## Deepening round: the caching loader -/
+
+/-- along a history of requests (the file system may change arbitrarily between them): every answer is an
+answer `get_source` gives for **this very name** on the file system of this or of an earlier request -/
+def AnswersArePast (cfg : FSLConfig) : List (FS × List Ch) → List (FS × (Comps → Nat) × List Ch) →
+    List (Except Exc (PPath × Nat)) → Prop
+  | H, (fs, _, name) :: hs, r :: rs =>
+    (∀ p c, r = .ok (p, c) → ∃ fs', (fs', name) ∈ (fs, name) :: H ∧ fslGetSource cfg fs' name = .ok (p, c)) ∧
+    AnswersArePast cfg ((fs, name) :: H) hs rs
+  | _, _, _ => True
+
+theorem cachedRun_past (L : CCfg) (hist : List (FS × (Comps → Nat) × List Ch)) :
+    ∀ H cache, CacheInv L.fsl H cache → AnswersArePast L.fsl H hist (cachedRun L cache hist) := by
+  induction hist with
+  | nil => intro H cache _; simp [AnswersArePast]
+  | cons t rest ih =>
+    obtain ⟨fs, mt, name⟩ := t
+    intro H cache hinv
+    obtain ⟨h1, h2⟩ := cachedLoad_step L fs mt H cache name hinv
+    simp only [cachedRun, AnswersArePast]
+    exact ⟨h2, ih _ _ h1⟩
+
+/-- **`CachingFileSystemLoader` (any capacity, auto-reload on or off, any sequence of changes to the file system
+between requests): a cached answer is never anything but what `get_source` returned for the same name at an
+earlier moment** — the cache is filled only through `resolve_path`/`_read`, and a key only ever maps to an
+answer for that key. What it does *not* promise is freshness: with auto-reload off, or when the replacing
+file has the same mtime, the earlier answer keeps being served (see the example below and stream `cache`). -/
+theorem cached_answers_are_past_answers (L : CCfg) (hist : List (FS × (Comps → Nat) × List Ch)) :
+    AnswersArePast L.fsl [] hist (cachedRun L [] hist) :=
+  cachedRun_past L hist [] [] (fun _ h => by simp at h)
+
+/-- **so cached contents obey the same containment**: with `reject_symlinks=True`, whatever a request through
+the cache returns is the content of a regular file that was, by link-free descent, below the search directory —
+on the file system as it was when that answer was loaded. Outside bytes are never served, stale or not. -/
+theorem cached_contents_were_inside (L : CCfg) (hrej : L.fsl.rejectSymlinks = true) (fs : FS) (mt : Comps → Nat)
+    (H : List (FS × List Ch)) (cache : List CEntry) (name : List Ch) (p : PPath) (c : Nat)
+    (hinv : CacheInv L.fsl H cache) (h : (cachedLoad L fs mt cache name).2 = .ok (p, c)) :
+    ∃ fs', (fs', name) ∈ (fs, name) :: H ∧ ∃ base ∈ L.fsl.search, ∃ cb s, canon fs' base = some cb ∧
+      nodeAt fs'.root (cb ++ s) = some (.file c) := by
+  obtain ⟨fs', hm, hg⟩ := (cachedLoad_step L fs mt H cache name hinv).2 p c h
+  obtain ⟨base, hb, cb, s, hcb, _, hnode, _⟩ := fsl_contents_inside_rejecting L.fsl fs' name p c hrej hg
+  exact ⟨fs', hm, base, hb, cb, s, hcb, hnode⟩
 
 /-! ## Non-vacuity: a concrete file system with decoys and links -/
 
@@ -297,6 +468,31 @@ example : pkgGetSource demoPkg demoFS (str "t") = .ok (parse (str "/srv/pkg/temp
 example : pkgGetSource demoPkg demoFS (str "/etc/passwd") = .error .notFound := by decide
 example : pkgGetSource demoPkg demoFS (str "../__init__.py") = .error .notFound := by decide
 example : pkgGetSource demoPkg demoFS [] = .error .notFound := by decide
+
+-- `ordinary_names_load` instantiated: `sub/b` under the default extension
+example : fslGetSource (demoCfg true) demoFS (str "sub/b") = .ok (⟨1, [str "srv", str "templates", str "sub", str "b.liquid"]⟩, 2) :=
+  ordinary_names_load (demoCfg true) demoFS (str "sub/b") ⟨0, [str "sub", str "b.liquid"]⟩ [] [] (parse (str "/srv/templates"))
+    [str "srv", str "templates"] 2 (by decide) (by decide) (by decide) (by decide) (by decide) (by simp)
+    (by decide) (by rfl) (by decide) (by decide) (by decide)
+example : strOf (parse (str "//a/./b//c.txt/")) = str "//a/b/c.txt" := by decide
+
+/-- `a.txt` replaced by a link to the decoy `/srv/secret.txt` (content 99) -/
+def demoFS2 : FS :=
+  { demoFS with root := .dir [
+      (str "srv", .dir [
+        (str "templates", .dir [(str "a.txt", .link false [str "..", str "secret.txt"])]),
+        (str "secret.txt", .file 99)])] }
+
+def demoCache (auto : Bool) : CCfg := { fsl := { demoCfg true with ext := none }, autoReload := auto, capacity := 2 }
+
+-- rejection on, the file is swapped for an outside link after it was cached:
+-- mtime differs → reloaded → rejected; same mtime, or auto-reload off → the earlier *inside* text (1), never 99
+example : cachedRun (demoCache true) [] [(demoFS, fun _ => 1000, str "a.txt"), (demoFS2, fun _ => 2000, str "a.txt")]
+    = [.ok (parse (str "/srv/templates/a.txt"), 1), .error .notFound] := by decide
+example : cachedRun (demoCache true) [] [(demoFS, fun _ => 1000, str "a.txt"), (demoFS2, fun _ => 1000, str "a.txt")]
+    = [.ok (parse (str "/srv/templates/a.txt"), 1), .ok (parse (str "/srv/templates/a.txt"), 1)] := by decide
+example : cachedRun (demoCache false) [] [(demoFS, fun _ => 1000, str "a.txt"), (demoFS2, fun _ => 2000, str "a.txt")]
+    = [.ok (parse (str "/srv/templates/a.txt"), 1), .ok (parse (str "/srv/templates/a.txt"), 1)] := by decide
 
 /-- the hypothesis of the link-free theorems is satisfiable -/
 example : LinkFreeBelow (.dir [([1], .dir [([2], .file 7)])]) [[1]] := by
